@@ -633,7 +633,8 @@ def _fmt_mesh(case, ctx, target, origs, fmt, tmp, rc):
     kind = fmt[0]
     pd = 2 if kind == 'smesh' else 3
     exp_fn, imp_fn = (exchange.export_smesh, exchange.import_smesh) if pd == 2 else (exchange.export_vmesh, exchange.import_vmesh)
-    sub = os.path.join(tmp, kind + '_dir')
+    # (the directory name repeats the extension text of the file name: numbering the parts must only touch the file name)
+    sub = os.path.join(tmp, kind + '.txt_files')
     os.mkdir(sub)
     base = 'mesh.txt'
     exp_fn(target, os.path.join(sub, base))
